@@ -35,6 +35,12 @@ def make_cases(ctx, tg, n):
         yield t, muts
 
 
+def _walk(n):
+    yield n
+    for c in n.children:
+        yield from _walk(c)
+
+
 def run(ctx):
     ri = gen.RuleInfo(); tg = gen.TreeGen(ri)
     n = 400 if ctx.tier == "quick" else 4000
@@ -47,6 +53,11 @@ def run(ctx):
             for x in ctx.rng.sample(ns_, min(len(ns_), ctx.rng.choice([2, 3, 5]))):
                 x[0] = ctx.rng.choice(["DUP-a", "dup-b"])
         root = impl.build(t)
+        if ctx.rng.random() < 0.15:
+            # children attached through the `children` setter / list append carry no (or a stale) back link
+            for nd in list(_walk(root)):
+                if nd.parent is not None and ctx.rng.random() < 0.4:
+                    nd.parent = None
         cases.append((t, muts))
         views.append(treeval.tree_views(root))
         nviews.append(treeval.node_views(root))
